@@ -17,12 +17,32 @@ bounded grammar below is given to the real `Float[Duck, spec]` and judged by
                      ('?' specs additionally as leaf type of a structured
                      PyTree over pairs of leaves);
  (5) meaning       : the vector of the normal form lies in the set of outcomes
-                     allowed by the reference step function refs/shapes.step.
+                     allowed by the reference step function refs/shapes.step;
+ (6) process state : the outcome of building a spec (annotation / ValueError) and the
+                     meaning of the annotation do not depend on the value of the config
+                     switches jaxtyping_disable / jaxtyping_remove_typechecker_stack at
+                     build time nor on what was built before: every spec is rebuilt with
+                     the switch on and after it is off again, on a previously used and
+                     on never-used (array type, dtype category) combinations, and compared
+                     with the build made while every switch was off (`eval_state`); a
+                     second family starts the interpreter with the switch set in the
+                     environment (`envstart`).  Meanings are probed with real isinstance
+                     checks only while the switches are off (what a *check* does while
+                     jaxtyping_disable is on is C19's subject).
+
+The base alphabet includes the NAME alphabet of refs/dims_ext (every Python keyword and
+soft keyword, builtins' names, non-ASCII identifiers, literal look-alikes) in every
+modifier combination: a name is whatever str.isidentifier() accepts.
 """
 from __future__ import annotations
 
+import contextlib
 import itertools
+import json
+import os
 import re
+import subprocess
+import sys
 
 from .. import common
 from ..common import Result, Violation
@@ -80,6 +100,10 @@ def spec_space(tier):
         for toks in itertools.product(alpha, repeat=n):
             fam += [("ws", s) for s in dx.whitespace_variants(list(toks))]
     fam += [("ws", s) for s in dx.whitespace_variants([])]  # the scalar shape ''
+    names = dx.name_tokens(tier)
+    fam += [("name", t) for t in names]
+    fam += [("namepair", s) for s in dx.name_pairs(tier)]
+    fam += [("namedoc", s) for s in dx.name_docs()]
     for name, lst in (("comma", dx.COMMA_FORMS), ("hash", dx.TRAILING_HASH), ("twomulti", dx.TWO_MULTI), ("ellipsis", dx.ELLIPSIS_MOD)):
         fam += [(name, s) for s in lst]
     fam += [("totality", s) for s in dx.TOTALITY_ONLY]
@@ -88,7 +112,50 @@ def spec_space(tier):
         if s not in seen:
             seen.add(s)
             out.append((f, s))
-    return out, dict(single_tokens=len(full), pair_tokens=len(mid))
+    return out, dict(single_tokens=len(full), pair_tokens=len(mid), name_alphabet=len(dx.NAMES), name_tokens=len(names))
+
+
+def state_deep_specs(tier):
+    """The sub-space on which the process-state family also compares MEANINGS (acceptance
+    vectors of every rebuilt annotation); on the rest of the space it compares the build
+    outcomes only."""
+    quick = tier == "quick"
+    out = list(dx.tokens(2 if quick else 3, "ends"))
+    perms = dx.mod_perms()
+    out += [m + n for n in (dx.NAMES_REPR if quick else dx.NAMES) for m in perms]
+    out += [m + n for n in dx.NAMES for m in ("", "*", "#", "?")]
+    out += [f"{x} {y}" for x in SEQ6 for y in SEQ6]
+    out += [f"{x} {y}" for x in dx.NAMES_REPR6 for y in dx.NAMES_REPR6]
+    out += [" ".join(t) for t in itertools.product(SEQ6 if quick else SEQ12, repeat=3)]
+    for n in (1, 2):
+        for toks in itertools.product(WS3, repeat=n):
+            out += dx.whitespace_variants(list(toks))
+    out += dx.whitespace_variants([])
+    out += dx.name_docs() + dx.COMMA_FORMS + dx.TRAILING_HASH + dx.TWO_MULTI + dx.ELLIPSIS_MOD
+    return set(out)
+
+
+def envstart_specs():
+    """The (tier-independent) space of the family that starts a fresh interpreter with a
+    switch set in the environment."""
+    out = list(dx.tokens(1, "ends"))
+    out += [m + n for n in dx.NAMES for m in ("", "#", "*", "_", "?")]
+    out += [m + n for n in dx.NAMES_REPR6 for m in dx.mod_perms()]
+    out += [f"{x} {y}" for x in SEQ6 for y in SEQ6]
+    out += [f"{x} {y}" for x in dx.NAMES_REPR6 for y in dx.NAMES_REPR6]
+    out += [" a   b\t", "\n#*b  3 "]
+    out += dx.COMMA_FORMS + dx.TRAILING_HASH + dx.TWO_MULTI + dx.ELLIPSIS_MOD + dx.TOTALITY_ONLY
+    seen, res = set(), []
+    for s in out:
+        if s not in seen:
+            seen.add(s)
+            res.append(s)
+    return res
+
+
+SWITCHES = [("disable", "jaxtyping_disable"), ("rts", "jaxtyping_remove_typechecker_stack")]
+ENVVAR = {"jaxtyping_disable": "JAXTYPING_DISABLE", "jaxtyping_remove_typechecker_stack": "JAXTYPING_REMOVE_TYPECHECKER_STACK"}
+COMPACT = ("none", "K1", "tree:empty")
 
 
 # ------------------------------------------------------------------- evaluation
@@ -99,11 +166,17 @@ class Env:
     common.bind_repo())."""
 
     def __init__(self, quick: bool):
-        from jaxtyping import Float
+        from jaxtyping import AbstractDtype, Float, config
         from ..adapter import Duck
         from ..fixtures.c14_probe import Prober, ref_context
 
         self.Float, self.Duck = Float, Duck
+        self.AbstractDtype, self.config = AbstractDtype, config
+        for _short, item in SWITCHES:
+            if getattr(config, item) is not False:
+                raise common.HarnessError(f"config switch {item} is not off when the evaluation environment is created")
+        self.ncat = 0
+        self.state_builds = self.state_vectors = 0
         self.prober = Prober()
         self.shapes = probe_shapes()
         self.values = [Duck(s) for s in self.shapes]
@@ -126,11 +199,41 @@ class Env:
             self._PyTree = PyTree
         return self._PyTree
 
-    def build(self, spec):
+    def fresh_cat(self):
+        """A dtype category (documented user extension point) that this process has never
+        used: whatever is remembered per (array type, string, dtype category) cannot have
+        an entry for it."""
+        self.ncat += 1
+        return type(self.AbstractDtype)(f"VfFresh{self.ncat}", (self.AbstractDtype,), {"dtypes": ["float32"]})
+
+    @contextlib.contextmanager
+    def switch(self, item, value=True):
+        old = getattr(self.config, item)
+        self.config.update(item, value)
+        try:
+            yield
+        finally:
+            self.config.update(item, old)
+
+    def compact(self, ann, treepath: bool):
+        """The part of `vectors` used by the process-state family."""
+        out = {}
+        for name, hist in self.contexts:
+            if name in COMPACT:
+                out[name] = self.prober.vector(ann, self.values, hist)
+        if treepath:
+            tann = self.PyTree()[ann, "T"]
+            for name, hist in self.tree_contexts:
+                if "tree:" + name in COMPACT:
+                    out["tree:" + name] = self.prober.vector(tann, self.trees, hist)
+        self.state_vectors += 1
+        return out
+
+    def build(self, spec, cat=None):
         """-> ('ann', annotation) | ('ValueError', msg) | ('other', 'TypeName: msg')"""
         self.builds += 1
         try:
-            return ("ann", self.Float[self.Duck, spec])
+            return ("ann", (cat or self.Float)[self.Duck, spec])
         except ValueError as e:
             return ("ValueError", str(e)[:120])
         except Exception as e:  # noqa: BLE001
@@ -233,7 +336,9 @@ def eval_spec(env: Env, spec: str, totality_only: bool = False):
     st, axes, soft = dx.classify(spec)
     kind, val = env.build(spec)
     probs = []
-    info = dict(ref=st, built=kind)
+    info = dict(ref=st, built=kind, _base=(kind, val), _tp=False, _vecs=None, _soft=soft)
+    if kind == "ann" and isinstance(axes, tuple):
+        info["_tp"] = dx.has_treepath(axes)
     if kind == "other":
         probs.append(("totality", f"building raised {val} (neither an annotation nor ValueError)"))
         return st, probs, info
@@ -258,6 +363,7 @@ def eval_spec(env: Env, spec: str, totality_only: bool = False):
         for p in cprobs:
             probs.append(("meaning", p))
         info["normal_form"] = True
+        info["_vecs"] = cvecs
         return st, probs, info
     if ckind != "ann":
         # reported on the normal form itself (it is in the space or soft); here it
@@ -268,6 +374,7 @@ def eval_spec(env: Env, spec: str, totality_only: bool = False):
             probs.append(("order", f"accepted, but its normal form {cspec!r} is rejected"))
         return st, probs, info
     vecs = env.vectors(val, tp)
+    info["_vecs"] = vecs
     for cname in vecs:
         if vecs[cname] != cvecs[cname]:
             items = env.tree_shapes if cname.startswith("tree:") else (SEQ_SHAPES if cname == "sequel" else env.shapes)
@@ -275,6 +382,71 @@ def eval_spec(env: Env, spec: str, totality_only: bool = False):
             probs.append(("order", f"context {cname}, value {items[i]}: verdict {vecs[cname][i]!r} but normal form {cspec!r} gives {cvecs[cname][i]!r}"))
             break
     return st, probs, info
+
+
+def _first_diff(env, a, b):
+    """first differing component of two vector dicts (over the keys of `a`) or None"""
+    for cname in a:
+        if cname in b and a[cname] != b[cname]:
+            items = env.tree_shapes if cname.startswith("tree:") else env.shapes
+            i = next(i for i, (x, y) in enumerate(zip(a[cname], b[cname])) if x != y)
+            return f"context {cname}, value {items[i]}: verdict {a[cname][i]!r}, but {b[cname][i]!r} for the annotation built while every switch was off"
+    return None
+
+
+def judge_state(env, st, soft, totality_only, base, base_vecs, tp, outs, deep):
+    """Compare the builds `outs` = [(label, kind, value)] made in other process states with
+    the build `base` = (kind, value) made while every switch was off.
+    -> [(problem-kind, text)], at most one of each kind.  Where the statement leaves the
+    outcome open (docs-silent forms, soft bases) only totality is demanded."""
+    probs = []
+    bkind = base[0]
+    strict = st in ("ok", "error") and not soft and not totality_only
+    for label, kind, val in outs:
+        if kind == "other" and bkind != "other":
+            probs.append(("state-totality", f"{label}: building raised {val} (neither an annotation nor ValueError)"))
+            break
+        if strict and kind != bkind:
+            shown = "an annotation" if kind == "ann" else f"{kind}({val!r})"
+            bshown = "an annotation" if bkind == "ann" else f"{bkind}({base[1]!r})"
+            probs.append(("state-outcome", f"{label}: building gives {shown}, but {bshown} when built while every switch was off"))
+            break
+    if deep and bkind == "ann" and st == "ok" and not totality_only:
+        if base_vecs is None:
+            base_vecs = env.compact(base[1], tp)
+        for label, kind, val in outs:
+            if kind != "ann":
+                continue
+            d = _first_diff(env, env.compact(val, tp), base_vecs)
+            if d:
+                probs.append(("state-meaning", f"{label}: {d}"))
+                break
+    return probs
+
+
+def eval_state(env: Env, spec: str, st, soft, totality_only, info, deep, switches=SWITCHES):
+    """The process-state dimension for one spec.  For every config switch: build the spec
+    while the switch is on -- on the (array type, category) combination that was already
+    used while it was off (Float[Duck]) and on a never-used one -- and again after the
+    switch is off -- on both of those and on yet another never-used combination.  All
+    five must have the outcome of the baseline build; annotations are probed (only with
+    every switch off again) against the baseline's acceptance vectors when `deep`.
+    -> [(problem-kind, switch-short-name, text)]"""
+    base = info["_base"]
+    out = []
+    for short, item in switches:
+        cat_a, cat_b = env.fresh_cat(), env.fresh_cat()
+        outs = []
+        with env.switch(item, True):
+            outs.append((f"{item} on, combination used before", *env.build(spec)))
+            outs.append((f"{item} on, fresh combination", *env.build(spec, cat_a)))
+        outs.append((f"{item} on then off, combination used before and while on", *env.build(spec)))
+        outs.append((f"{item} on then off, combination first used while on", *env.build(spec, cat_a)))
+        outs.append((f"{item} on then off, fresh combination", *env.build(spec, cat_b)))
+        env.state_builds += 5
+        for kind, text in judge_state(env, st, soft, totality_only, base, info.get("_vecs"), info["_tp"], outs, deep):
+            out.append((kind, short, text))
+    return out
 
 
 def eval_special(env: Env, kind: str, name: str):
@@ -326,13 +498,19 @@ def _key(kind, spec):
     return f"C14:{kind}:{spec!r}"
 
 
+def _viol(kind, spec, text, replay):
+    return Violation(key=_key(kind, spec), what=f"Float[Duck, {spec!r}]: {text}", replay=replay).to_json()
+
+
 def _run_shard(job):
+    if job.get("type") == "envstart":
+        return _run_envstart(job)
     common.bind_repo()
     env = Env(job["quick"])
-    stats = dict(ok=0, error=0, dontcare=0, nontrivial=0, normal_forms=0, respelled=0, treepath=0, soft_rejected=0, built=0, valueerror=0)
+    stats = dict(ok=0, error=0, dontcare=0, nontrivial=0, normal_forms=0, respelled=0, treepath=0, soft_rejected=0, built=0, valueerror=0, state_scenarios=0, state_deep=0)
     viols, samples = [], []
     fam_counts = {}
-    for fam, spec in job["specs"]:
+    for fam, spec, deep in job["specs"]:
         st, probs, info = eval_spec(env, spec, fam == "totality")
         stats[st] += 1
         fam_counts[fam] = fam_counts.get(fam, 0) + 1
@@ -351,25 +529,119 @@ def _run_shard(job):
             samples.append(dict(family=fam, spec=spec, normal_form=info["canonical"], outcome="same acceptance vector"))
         for kind, text in probs:
             if len(viols) < 100:
-                viols.append(Violation(key=_key(kind, spec), what=f"Float[Duck, {spec!r}]: {text}", replay=dict(kind="spec", spec=spec, quick=job["quick"], totality_only=fam == "totality")).to_json())
+                viols.append(_viol(kind, spec, text, dict(kind="spec", spec=spec, quick=job["quick"], totality_only=fam == "totality")))
+        # the process-state dimension
+        sprobs = eval_state(env, spec, st, info["_soft"], fam == "totality", info, deep)
+        stats["state_scenarios"] += len(SWITCHES)
+        stats["state_deep"] += 1 if (deep and info["built"] == "ann" and st == "ok") else 0
+        for kind, short, text in sprobs:
+            if len(viols) < 100:
+                item = dict(SWITCHES)[short]
+                viols.append(_viol(f"{kind}:{short}", spec, text, dict(kind="state", spec=spec, switch=item, deep=deep, quick=job["quick"], totality_only=fam == "totality")))
     stats["checks"] = env.prober.checks
     stats["builds"] = env.builds
     stats["rebuilds"] = env.prober.rebuilds
     stats["canon_forms"] = len(env.canon_cache)
+    stats["state_builds"] = env.state_builds
+    stats["state_vectors"] = env.state_vectors
     return stats, viols, samples, fam_counts
+
+
+# ---------------------------------------------- interpreter started with a switch set
+
+
+def _envstart_child(item, specs):
+    """Runs in an interpreter that was STARTED with the switch set in the environment.
+    Builds every spec while the switch is (still) on, switches it off, then judges every
+    spec completely (`eval_spec`: legality, order freedom, reference meaning -- on the
+    combination Float[Duck] first used while the switch was on) and compares the
+    builds made while on / after off / on a never-used combination (`judge_state`)."""
+    common.bind_repo()
+    from jaxtyping import Float, config
+
+    from ..adapter import Duck
+
+    if getattr(config, item) is not True:
+        raise common.HarnessError(f"{ENVVAR[item]}=1 in the environment did not set config.{item}")
+    on = {}
+    totality = set(dx.TOTALITY_ONLY)
+    for spec in specs:
+        try:
+            on[spec] = ("ann", Float[Duck, spec])
+        except ValueError as e:
+            on[spec] = ("ValueError", str(e)[:120])
+        except Exception as e:  # noqa: BLE001
+            on[spec] = ("other", f"{type(e).__name__}: {e}"[:160])
+    config.update(item, False)
+    env = Env(True)
+    problems = []
+    counts = dict(specs=len(specs), ok=0, error=0, dontcare=0, builds=len(specs))
+    for spec in specs:
+        tot = spec in totality
+        st, probs, info = eval_spec(env, spec, tot)
+        counts[st] += 1
+        for kind, text in probs:
+            problems.append((f"envstart-{kind}", spec, f"(after {item} was switched off; first built while it was on) {text}"))
+        outs = [(f"{ENVVAR[item]}=1 at interpreter start, built while on", *on[spec]), (f"{ENVVAR[item]}=1 at interpreter start then off, fresh combination", *env.build(spec, env.fresh_cat()))]
+        for kind, text in judge_state(env, st, info["_soft"], tot, info["_base"], info.get("_vecs"), info["_tp"], outs, True):
+            problems.append((f"envstart-{kind[len('state-'):]}", spec, text))
+    counts["builds"] += env.builds
+    counts["checks"] = env.prober.checks
+    return dict(problems=problems, counts=counts)
+
+
+def _spawn_envstart(item, specs):
+    root = os.path.dirname(os.path.dirname(os.path.dirname(os.path.abspath(__file__))))
+    envv = dict(os.environ)
+    envv["VERIF_REPO"] = common.REPO
+    envv[ENVVAR[item]] = "1"
+    envv["PYTHONDONTWRITEBYTECODE"] = "1"
+    envv["PYTHONWARNINGS"] = "ignore"
+    p = subprocess.run([sys.executable, "-m", "vf.checks.c14", "--envstart-child", item], input=json.dumps(specs), capture_output=True, text=True, cwd=root, env=envv, timeout=900)
+    if p.returncode != 0:
+        raise common.HarnessError(f"envstart child ({item}) exited {p.returncode}: {p.stderr[-800:]}")
+    try:
+        return json.loads(p.stdout.strip().splitlines()[-1])
+    except Exception as e:  # noqa: BLE001
+        raise common.HarnessError(f"envstart child ({item}) printed no result: {e}: {p.stdout[-300:]}")
+
+
+def _run_envstart(job):
+    item, short = job["item"], job["short"]
+    res = _spawn_envstart(item, job["specs"])
+    viols = []
+    seen = set()
+    for kind, spec, text in res["problems"]:
+        if (kind, spec) in seen or len(viols) >= 100:
+            continue
+        seen.add((kind, spec))
+        viols.append(_viol(f"{kind}:{short}", spec, text, dict(kind="envstart", spec=spec, switch=item)))
+    c = res["counts"]
+    stats = dict(envstart_specs=c["specs"], envstart_builds=c["builds"], envstart_checks=c["checks"], envstart_nontrivial=c["ok"] + c["error"])
+    return stats, viols, [], {"envstart:" + short: c["specs"]}
+
+
+ENVSTART_CHUNKS = 4
 
 
 def run(ctx):
     space, sizes = spec_space(ctx.tier)
+    deep = state_deep_specs(ctx.tier)
     # specs whose probing is expensive ('?' specs go through PyTree checks) are
     # spread evenly: round-robin over the fixed order does that.
     n_sh = common.NCPU * 6
     jobs = []
+    # the interpreter-start family first: its jobs are the longest
+    es = envstart_specs()
+    for short, item in SWITCHES:
+        for k in range(ENVSTART_CHUNKS):
+            jobs.append(dict(type="envstart", item=item, short=short, specs=es[k::ENVSTART_CHUNKS]))
+    n_env = len(jobs)
     for i, idx in enumerate(common.shards(len(space), n_sh, ctx.seed)):
-        jobs.append(dict(specs=[space[j] for j in idx], quick=ctx.quick, sample_fams=["single", "pair", "seq", "ws"]))
+        jobs.append(dict(specs=[space[j] + (space[j][1] in deep,) for j in idx], quick=ctx.quick, sample_fams=["single", "pair", "seq", "ws", "name", "namepair", "namedoc"]))
     outs = common.pmap(_run_shard, jobs)
     # deterministic merge: order by the first spec of the shard (the seed only rotates shards)
-    order = sorted(range(len(jobs)), key=lambda i: jobs[i]["specs"][0][1])
+    order = list(range(n_env)) + sorted(range(n_env, len(jobs)), key=lambda i: jobs[i]["specs"][0][1])
     outs = [outs[i] for i in order]
     stats = common.merge_counts(o[0] for o in outs)
     fam_counts = common.merge_counts(o[3] for o in outs)
@@ -391,10 +663,11 @@ def run(ctx):
             viols.append(Violation(key=f"C14:{kind}:{name}", what=f"Float[Duck, <{name}>]: {text}", replay=dict(kind=kind, name=name)))
     samples.append(dict(family="nonstring", spec="b'a'", outcome="ValueError" if not eval_special(env, "nonstring", "bytes") else "violation"))
     samples.append(dict(family="comma", spec="a,b", outcome=env.build("a,b")[0]))
+    samples.append(dict(family="state", spec="#*in", switch="jaxtyping_disable", outcome="same outcome and acceptance vectors in all 5 rebuilds" if not eval_state(env, "#*in", "ok", False, False, eval_spec(env, "#*in")[2], True, SWITCHES[:1]) else "violation"))
 
     viols.sort(key=lambda v: (len(v.key), v.key))
     cov = dict(
-        evaluations=stats["builds"] + stats["checks"] + special_evals,
+        evaluations=stats["builds"] + stats["checks"] + special_evals + stats["envstart_builds"] + stats["envstart_checks"],
         specs=len(space),
         annotations_built_or_refused=stats["builds"],
         isinstance_probes=stats["checks"],
@@ -417,6 +690,16 @@ def run(ctx):
         contexts_unusable_on_this_tree=len(CONTEXTS) - len(env.contexts),
         families=fam_counts,
         specials=len(SPECIALS),
+        state_switches=[item for _, item in SWITCHES],
+        state_scenarios=stats["state_scenarios"],
+        state_builds=stats["state_builds"],
+        state_specs_with_meaning_comparison=stats["state_deep"],
+        state_vectors=stats["state_vectors"],
+        state_deep_space=len(deep),
+        envstart_interpreters=n_env,
+        envstart_specs_per_switch=len(es),
+        envstart_builds=stats["envstart_builds"],
+        envstart_isinstance_probes=stats["envstart_checks"],
         probe_shapes=len(probe_shapes()),
         contexts=[c for c, _ in CONTEXTS],
         **sizes,
@@ -426,7 +709,18 @@ def run(ctx):
         + ("6" if ctx.quick else "12")
         + " tokens; whitespace: 5 separators x 3 leading x 3 trailing patterns on <=3-token sequences over "
         + ("6 (3 for length 3)" if ctx.quick else "6")
-        + " tokens; fixed lists of comma / trailing-# / two-multi / ellipsis-modifier forms; 6 non-string specs; 5 malformed subscripts",
+        + " tokens; fixed lists of comma / trailing-# / two-multi / ellipsis-modifier forms; 6 non-string specs; 5 malformed subscripts; "
+        + f"NAME alphabet of {len(dx.NAMES)} identifiers (all {len(dx.HARD_KEYWORDS)} Python keywords incl. None/True/False, {len(dx.SOFT_KEYWORDS)} soft keywords, {len(dx.BUILTIN_NAMES)} builtins' names, "
+        + f"{len(dx.NONASCII_NAMES)} non-ASCII identifiers, {len(dx.ASCII_NAMES)} literal look-alikes): every name x every order of every subset of the 4 modifiers x doc= "
+        + ("absent/in front" if ctx.quick else "absent/in front/before the base, and x every modifier string of <=3 chars x doc= at no/either end")
+        + f"; {len(dx.NAMES_REPR)} representative names x every modifier string of <="
+        + ("3 chars x doc= at no/either end" if ctx.quick else "4 chars x doc= at no/every position")
+        + "; pairs of name tokens ("
+        + ("6 names x 4" if ctx.quick else "12 names x 5")
+        + " modifier choices); every name as `name=` prefix of 6 tokens; "
+        + "process state: EVERY spec of the space rebuilt 5 times per config switch (switch on: used + fresh combination; on then off: used, first-used-while-on, fresh) "
+        + "and compared with the switch-off build by outcome, and by acceptance vectors (contexts none, K1, tree:empty) on the sub-space state_deep_space; "
+        + f"interpreter started with the switch in the environment: {len(es)} specs per switch, judged completely after switching off",
     )
     return Result(
         level="exploration",
@@ -436,11 +730,15 @@ def run(ctx):
             "refs/dims.parse (+ dims_ext soft bases) is the reading of docs/api/array.md: which forms are legal, illegal, or not mentioned",
             "refs/shapes.step gives the documented meaning of a normal-form spec (same reference as C01)",
             "acceptance over the probe shapes under 3 contexts separates any two different meanings expressible in the token alphabet",
+            "a name is any token accepted by str.isidentifier() (docs: 'any identifier'); the reference never consults Python's keyword tables or expression grammar",
+            "a user-defined AbstractDtype subclass with a new name is a (array type, dtype) combination the library cannot have seen before",
         ],
         notes=[
             "don't-care: empty base without '_', '?_', '?_name', more than one '=', non-identifier doc prefix; bases '-1' and '1.5' may be rejected with ValueError",
             "'?' specs are compared differentially only (bare and as PyTree[ann,'T'] leaf type); their meaning is C16's subject",
             "reference meaning is not consulted when one name is used both as a single-axis and as a multi-axis name (docs silent)",
+            "process state: for docs-silent forms and soft bases only totality is demanded in every state (the statement leaves their outcome open); "
+            "annotations are probed only while every switch is off (checks under jaxtyping_disable are C19's subject)",
         ],
     )
 
@@ -451,6 +749,25 @@ def replay(rep):
         env = Env(True)
         probs = eval_special(env, rep["kind"], rep["name"])
         return dict(violates=bool(probs), problems=[t for _, t in probs])
+    if rep["kind"] == "envstart":
+        res = _spawn_envstart(rep["switch"], [rep["spec"]])
+        return dict(violates=bool(res["problems"]), problems=[f"{k}: {t}" for k, _s, t in res["problems"]])
     env = Env(rep.get("quick", True))
     st, probs, info = eval_spec(env, rep["spec"], rep.get("totality_only", False))
-    return dict(violates=bool(probs), reference=st, info={k: str(v) for k, v in info.items()}, problems=[f"{k}: {t}" for k, t in probs])
+    shown = {k: str(v) for k, v in info.items() if not k.startswith("_")}
+    if rep["kind"] == "state":
+        sw = [(s, i) for s, i in SWITCHES if i == rep["switch"]]
+        sprobs = eval_state(env, rep["spec"], st, info["_soft"], rep.get("totality_only", False), info, rep.get("deep", True), sw)
+        return dict(violates=bool(sprobs), reference=st, info=shown, problems=[f"{k}:{s}: {t}" for k, s, t in sprobs])
+    return dict(violates=bool(probs), reference=st, info=shown, problems=[f"{k}: {t}" for k, t in probs])
+
+
+if __name__ == "__main__":
+    if len(sys.argv) == 3 and sys.argv[1] == "--envstart-child":
+        import warnings
+
+        warnings.simplefilter("ignore")
+        _res = _envstart_child(sys.argv[2], json.loads(sys.stdin.read()))
+        print(json.dumps(_res))
+        sys.exit(0)
+    sys.exit(2)
